@@ -91,6 +91,7 @@ def body_value(draw, kind, s, comps):
 
 
 def media_kind(mt: str) -> str:
+    mt = docs.media_base(mt)
     if mt == "application/x-www-form-urlencoded":
         return "form"
     if mt == "multipart/form-data":
@@ -106,7 +107,7 @@ def cases(draw, tier):
                         header_uuid="KF-C03-02" not in _live, cookie_nonstring="KF-C03-01" not in _live,
                         date_datetime_union=False, two_array_union=False, const=True,
                         multi_body_multipart="KF-C03-04" not in _live, multi_body_array="KF-C03-05" not in _live,
-                        multipart_models=True)
+                        multipart_models=True, media_spellings=True)
     ir = draw(docs.doc_ir(prof))
     comps = docs.comp_map(ir)
     # an operation-level parameter shadowing a path-item-level one of a different kind
@@ -150,6 +151,8 @@ def cases(draw, tier):
                     continue
             calls.append({"op": oi, "args": args, "body": body, "via": draw(st.sampled_from(["httpx_args", "httpx_args", "set_client"]))})
     case = {"ir": ir, "cfg": {"literal_enums": draw(st.booleans())}, "calls": calls}
+    if docs.media_overrides(ir):
+        case["cfg"]["content_type_overrides"] = docs.media_overrides(ir)
     if draw(st.integers(0, 2)) == 0:
         # the same document with a drawn subset of parameters, bodies and responses declared once under components (keys spelled
         # unlike the parameter names) and used by reference: the wire must not change
